@@ -218,14 +218,18 @@ PLANS = {
     "C13": {
         "level": "exploration",
         "rule": NT_RULE + "; C13: a request crossed at least one nng_device and was answered or discarded as the hop "
-                          "model says (chain), a crafted backtrace was delivered or refused (raw), or a ring was "
-                          "observed to fall silent (loop)",
+                          "model says (chain), a crafted backtrace was delivered or refused (raw), a ring was "
+                          "observed to fall silent (loop), or a survey fanned out to several respondents / a BUS message "
+                          "fanned out to several devices arrived (fan)",
         "budget_s": {"quick": 50, "thorough": 900},
         "scenarios": [
             S("c13_chain", 1000, 30000),
             S("c13_raw", 800, 24000),
             S("c13_loop", 600, 18000),
             S("c08_hops", 500, 15000, label="pair1 hop", bp=1),  # PAIR1 hop count on every path to the wire (the loop clause rests on it)
+            # scenarios/c13b_fanout.cc: one sender attached to several raw receivers at once (every other C13 workload uses one path at a time)
+            S("c13_fansurv", 600, 18000),  # surveyor(s) -> 2..4 respondents directly / behind one device each / behind one device; raw surveyor with the survey id in the header, at the front of the body (empty header) or split; inproc and tcp/ipc
+            S("c13_fanbus", 500, 15000),   # cooked BUS nodes attached to 2..3 BUS devices (reflector or bridge) at once, leaves behind single devices
         ],
         "assumptions": [
             "hop-count convention pinned by the existing suite (test_xrep_ttl_drop): a request that crossed j "
